@@ -1,5 +1,6 @@
 """C16 - container writer output independent of the sink's write schedule; sink errors surface."""
 import json
+import os
 import random
 import time
 
@@ -20,6 +21,30 @@ def is_prefix(a, b):
     return len(a) <= len(b) and b[:len(a)] == a
 
 
+def apalache_induction():
+    import shutil
+    import subprocess
+    exe = shutil.which("apalache-mc")
+    if not exe:
+        return "apalache-mc not installed: skipped"
+    out = common.workdir(f"c16-apalache-{os.getpid()}")
+    mod = os.path.join(common.SPEC, "apalache", "VectoredWriteInd.tla")
+
+    def run_apa(cinit, init, length):
+        p = subprocess.run(["timeout", "900", exe, "check", f"--cinit={cinit}", f"--init={init}", "--inv=IndInv", f"--length={length}", f"--out-dir={out}", mod],
+                           cwd=out, stdout=subprocess.PIPE, stderr=subprocess.STDOUT, text=True)
+        return "The outcome is: NoError" in p.stdout, "The outcome is: Error" in p.stdout, p.stdout[-1500:]
+    ok0, _, o0 = run_apa("ConstInit", "Init", 0)
+    ok1, _, o1 = run_apa("ConstInit", "IndInit", 1)
+    _, bad, o2 = run_apa("ConstInitMut", "IndInit", 1)
+    shutil.rmtree(out, ignore_errors=True)
+    if not (ok0 and ok1):
+        raise common.ToolError("Apalache did not discharge the inductive invariant of VectoredWriteInd:\n" + (o0 if not ok0 else o1))
+    if not bad:
+        raise common.ToolError("Apalache accepts the mutated VectoredWriteInd (off-by-one advance): the inductive invariant is vacuous\n" + o2)
+    return "Init => IndInv; IndInv /\\ Next => IndInv' (buffers <= 3 / 4 / 2 bytes, any contents, any number of steps); mutant refuted"
+
+
 def run(tier, seed):
     t0 = time.time()
     rep = common.Report(PROP, tier, seed)
@@ -30,6 +55,11 @@ def run(tier, seed):
     mm = common.run_tlc("VectoredWrite", "MC_VectoredWrite_mut.cfg", workers=2, timeout=300)
     if "is violated" not in mm["out"]:
         raise common.ToolError("VectoredWrite mutant not detected: invariants are vacuous")
+    # ---- A': the same invariant as an INDUCTIVE invariant (no bound on the number of steps, any buffer contents up to the length bounds),
+    #          discharged by Apalache; the off-by-one mutation must break the induction step.  Thorough tier; skipped if Apalache is absent.
+    apalache = None
+    if tier != "quick":
+        apalache = apalache_induction()
     # ---- B: schedules on the real writer
     G = container.item_schema()
     rng = random.Random(seed)
@@ -165,6 +195,7 @@ def run(tier, seed):
         "by_kind": count, "vectored_call_events": len(vw_events),
         "samples": [cmds[0], cmds[len(cmds) // 2]], "exhaustive": False,
     }
+    cov["apalache_inductive_invariant"] = apalache or "thorough tier only"
     common.write_evidence(PROP, tier, seed, "model_checking", cov,
                           ["oracle = VectoredWrite.tla (loop) + byte equality with the all-accepting sink's stream",
                            "harness built with debug assertions (the crate's Drop impl asserts in that configuration)",
